@@ -211,6 +211,7 @@ structure Server where
   usedLoanLabels : List Nat := []
   usedLabels : List Nat := []   -- harness: labels of active requests are not reused
   gRecvReq : List (Nat × Nat) := []  -- ghost: (client, request id) of every active request handed out
+  gRecvSeq : List (Nat × Nat) := []  -- ghost: (client, send number of the request) of every active request handed out
 deriving Repr
 
 /-- `server_list_state` of a client / `client_list_state` of a server: the registry as last seen,
@@ -1174,7 +1175,8 @@ def opRecvReq (w : World) (s a : Nat) : World × String :=
       match getSv w1 s with
       | some V =>
         let A : Active := { label := a, det := h, connId := connIdOf (sndConns w1 (sid s)) (cid m.client) 0, msg := m }
-        (setSv w1 s { V with actives := V.actives ++ [A], usedLabels := a :: V.usedLabels, gRecvReq := V.gRecvReq ++ [(m.client, m.rid)] },
+        (setSv w1 s { V with actives := V.actives ++ [A], usedLabels := a :: V.usedLabels,
+                             gRecvReq := V.gRecvReq ++ [(m.client, m.rid)], gRecvSeq := V.gRecvSeq ++ [(m.client, m.gSeq)] },
          s!"some:{h.origin.n}:{m.tag}")
       | none => (w1, "none")
 
